@@ -128,7 +128,7 @@ struct Ctx {
     first: &'static str,
     cont: &'static str,
 }
-const CTXS: [Ctx; 7] = [
+const CTXS: [Ctx; 8] = [
     Ctx { name: "p", open: "<p>", close: "</p>", first: "", cont: "" },
     Ctx { name: "ul/li", open: "<ul><li><p>", close: "</p></li></ul>", first: "* ", cont: "  " },
     Ctx { name: "blockquote", open: "<blockquote><p>", close: "</p></blockquote>", first: "> ", cont: "> " },
@@ -136,6 +136,8 @@ const CTXS: [Ctx; 7] = [
     Ctx { name: "h2", open: "<h2>", close: "</h2>", first: "## ", cont: "## " },
     Ctx { name: "dl/dd", open: "<dl><dd>", close: "</dd></dl>", first: "  ", cont: "  " },
     Ctx { name: "ul/li/blockquote", open: "<ul><li><blockquote><div>", close: "</div></blockquote></li></ul>", first: "* > ", cont: "  > " },
+    // the last number of the list is one below a power of ten
+    Ctx { name: "ol start=9/li", open: "<ol start=9><li>", close: "</li></ol>", first: "9. ", cont: "   " },
 ];
 
 #[derive(Serialize, Deserialize, Clone, Debug)]
